@@ -155,7 +155,9 @@ def check_case(c, pname, dname, seed):
     Wd = W.detach().double()
     cond = float(np.linalg.cond(Wd.numpy()))
     if not np.isfinite(cond) or cond > 1e8:
-        V("not invertible", "weight() has condition number %.3g" % cond)
+        if pname != "init":
+            return "skip-ill-conditioned-pattern"  # usability is claimed for the initialisation modes, not for arbitrary weights
+        V("not invertible", "as constructed, weight() has condition number %.3g" % cond)
         return out
     if dtype == torch.float32 and cond > 1e3:
         return "skip-ill-conditioned-float32"  # single precision is only claimed for moderate magnitudes (C19)
